@@ -112,6 +112,10 @@ def c01(tier, seed):
                        dict(paths=os.path.join(GEN, "writer_paths.ndjson"), ops="c01", full=0 if q else 1))
     units += shards("hist", "hist", 6 if q else 32, seed, dict(histories=5 if q else 20, len=40))
     units += shards("wfull", "wfull", 2 if q else 8, seed, dict(rounds=6 if q else 30))
+    # the debug profile (debug assertions guard the 64-bit limits of the primitives): the widest words
+    units += cfg_shards("wstates-dev", "wstates", NW, seed + 1,
+                        dict(paths=os.path.join(GEN, "writer_paths.ndjson"), ops="c01", full=0),
+                        pick={16, 37} if q else {16, 17, 18, 19, 36, 37, 38, 39, 12, 32}, variant=DEV)
     return dict(
         needs_gen=True,
         mc=writer_mcs(tier),
@@ -134,6 +138,9 @@ def c02(tier, seed):
     else:
         units = cfg_shards("rstates", "rstates", NR, seed, dict(paths=RP, ops="c02", full=1, images=4))
     units += shards("hist", "hist", 6 if q else 32, seed, dict(histories=5 if q else 20, len=40))
+    # the debug profile: 64-bit words (double-width buffer) and the unbuffered reader, both endiannesses
+    units += cfg_shards("rstates-dev", "rstates", NR, seed + 1, dict(paths=RP, ops="c02", full=0, images=1),
+                        pick={18, 46, 24, 52} if q else {18, 19, 46, 47, 24, 25, 52, 53, 12, 40}, variant=DEV)
     return dict(
         needs_gen=True,
         mc=reader_mcs(tier),
@@ -324,7 +331,9 @@ def c14(tier, seed):
              "trait method the wrappers expose (codes with every table option, omega, skips, look-ahead + "
              "skip-after-peek, flushes, copies in both directions); the public counter after every call is "
              "compared by TLC with the abstract count. distinct = (endianness, word, wrapper, kind).",
-        units=shards("wrappers", "wrappers", 8 if q else 32, seed, dict(histories=10 if q else 40, len=40)),
+        units=shards("wrappers", "wrappers", 8 if q else 32, seed, dict(histories=10 if q else 40, len=40))
+              # the debug profile: a wrapper must not drive the wrapped object outside its contract (debug assertions)
+              + shards("wrappers-dev", "wrappers", 2 if q else 8, seed + 50, dict(histories=10 if q else 40, len=40), variant=DEV),
     )
 
 
